@@ -210,6 +210,10 @@ MUTANTS = [
          needs='at least 7 terms: the returned entry has the wrong parity from the 7th term on',
          edits=[("            estlim = epstab[n % 2]\n",
                  "            estlim = epstab[n % 2] if n < 6 else epstab[(n + 1) % 2]\n")]),
+    dict(id='c14_epsalg_window_161', prop='C14', file=EXT, expect='caught',
+         needs='more than 161 terms fed to one EpsAlg: only the last 161 are kept, wrong entry from the 163rd term on',
+         edits=[("        epstab = self.epstab\n        n = len(epstab)\n        epstab.append(s_n)\n",
+                 "        epstab = self.epstab\n        if len(epstab) > 160:\n            del epstab[0]\n        n = len(epstab)\n        epstab.append(s_n)\n")]),
     dict(id='c14_dea_no_cap_on_converged', prop='C14', file=EXT, expect='caught',
          needs='more terms than limexp after the converged exit (the original defect fixed in 73db381)',
          edits=[("                # omit the part of the table that is not updated yet\n                n = 2*i\n", ""),
